@@ -31,24 +31,6 @@ theorem shr_carry_eq (x b : ℕ) (hb : b < 64) :
     rw [Nat.mul_assoc, ← pow_succ, Nat.mul_comm]; congr 2; omega
   rw [h1, h2, W_split b hb, Nat.mul_comm (2 ^ b), Nat.mul_mod_mul_left]
 
-theorem val_eq_zero_iff (l : List ℕ) : val l = 0 ↔ ∀ x ∈ l, x = 0 := by
-  induction l with
-  | nil => simp
-  | cons x xs ih =>
-    have hW := W_pos
-    simp only [val_cons, List.mem_cons, forall_eq_or_imp]
-    constructor
-    · intro h
-      have h1 : x = 0 := by omega
-      have h2 : W * val xs = 0 := by omega
-      have h3 : val xs = 0 := by
-        rcases Nat.mul_eq_zero.mp h2 with h | h
-        · omega
-        · exact h
-      exact ⟨h1, ih.mp h3⟩
-    · rintro ⟨h1, h2⟩
-      rw [h1, ih.mpr h2]; simp
-
 theorem isNonzero_iff (l : List ℕ) : isNonzero l = true ↔ val l ≠ 0 := by
   rw [Ne, val_eq_zero_iff]
   unfold isNonzero
@@ -165,17 +147,6 @@ theorem shrLoop_spec (b : ℕ) (hb : b < 64) (xs : List ℕ) (q : ℕ) (hx : All
       generalize 2 ^ b = T at *
       nlinarith
 
-theorem take_drop_val (a : List ℕ) (m : ℕ) (hm : m ≤ a.length) :
-    val a = val (a.take m) + W ^ m * val (a.drop m) := by
-  conv_lhs => rw [← List.take_append_drop m a]
-  rw [val_append, List.length_take, Nat.min_eq_left hm]
-
-theorem allLt_take {a : List ℕ} (h : AllLt a) (m : ℕ) : AllLt (a.take m) :=
-  fun x hx => h x (List.mem_of_mem_take hx)
-theorem allLt_drop {a : List ℕ} (h : AllLt a) (m : ℕ) : AllLt (a.drop m) :=
-  fun x hx => h x (List.mem_of_mem_drop hx)
-theorem allLt_reverse {a : List ℕ} (h : AllLt a) : AllLt a.reverse :=
-  fun x hx => h x (List.mem_reverse.mp hx)
 
 theorem add_mul_ne_zero (c T v : ℕ) (hT : 0 < T) : c + T * v ≠ 0 ↔ c ≠ 0 ∨ v ≠ 0 := by
   constructor
